@@ -1,5 +1,6 @@
 import ShellOp.Proofs.WorkerC03
 import ShellOp.Generated.Facts
+import ShellOp.Model.SetLock
 /-!
 # C03 — a queue runs one task at a time, head first; queues do not block each other
 
@@ -314,6 +315,33 @@ theorem handler_takes_no_queue_lock :
     Facts.c03_queueCalls_taskHandler = [] ∧ Facts.c03_queueCalls_taskHandleHookRun = ["GetByName"] ∧
     Facts.c03_queueCalls_taskHandleEnableKubernetesBindings = [] ∧ Facts.c03_queueCalls_handleRunHook = [] ∧
     Facts.c03_queueCalls_combineBindingContextForHook = ["Filter", "GetByName", "Iterate"] := by
+  decide
+
+/-! ### the lock of the queue set -/
+
+/-- **C03.3/4, the set lock (repaired code).** `Iterate` holding the read lock once and a concurrent
+`DoWithLock` (the consumer placing an event's tasks) never block each other for good: in every state
+reachable by any interleaving of the two, some thread can move until both have finished. (Complete
+finite exploration: the two programs have 2 + 3 steps.) -/
+theorem iterate_and_consumer_never_deadlock :
+    (SetLock.reach 6 { rprog := SetLock.iterateFlat, wprog := SetLock.doWithLock }).all
+      (fun s => !SetLock.stuck s) = true := by
+  decide
+
+/-- both programs do finish on some schedule, and on every maximal schedule (6 steps suffice) -/
+example :
+    ((SetLock.reach 6 { rprog := SetLock.iterateFlat, wprog := SetLock.doWithLock }).any SetLock.finished) = true := by
+  decide
+
+/-- **Witness (unrepaired code).** `Iterate` as it was took the read lock a second time through
+`GetMain()`: reader takes the lock, the consumer's `DoWithLock` announces itself, the reader's second
+`RLock` waits behind the writer, the writer waits for the reader — nothing moves any more: no event is
+placed in any queue, every handler that looks a queue up blocks. Replayed on the real code through the
+yield point `queueset.iterate.locked` (corpus case 1 of suite c03). -/
+theorem nested_rlock_deadlocks :
+    (do let s1 ← SetLock.step { rprog := SetLock.iterateNested, wprog := SetLock.doWithLock } .reader
+        let s2 ← SetLock.step s1 .writerAnnounce
+        pure (SetLock.stuck s2)) = some true := by
   decide
 
 /-! ### Non-vacuity and witnesses -/
